@@ -819,15 +819,26 @@ func (br *bodyRun) userAsserts(b *ssa.BasicBlock, idx int, ins ssa.Instruction, 
 			if match && strings.Contains(fs[1], "#") {
 				ord := 0
 				fmt.Sscanf(fs[1][strings.Index(fs[1], "#")+1:], "%d", &ord)
-				k := 0
+				// return statements in source order
+				var rets []ssa.Instruction
 				for _, bb := range br.fn.Blocks {
 					for _, in2 := range bb.Instrs {
 						if _, isRet := in2.(*ssa.Return); isRet {
-							k++
-							if in2 == ins {
-								match = k == ord
-							}
+							rets = append(rets, in2)
 						}
+					}
+				}
+				sort.SliceStable(rets, func(i, j int) bool {
+					pi, pj := rets[i].Pos(), rets[j].Pos()
+					if pi.IsValid() != pj.IsValid() {
+						return pi.IsValid()
+					}
+					return pi.IsValid() && pi < pj
+				})
+				match = false
+				for k, in2 := range rets {
+					if in2 == ins {
+						match = k+1 == ord
 					}
 				}
 			}
@@ -901,6 +912,14 @@ func calleeName(ci ssa.CallInstruction) string {
 		return f.Name()
 	case *ssa.MakeClosure:
 		return closureName(f.Fn.(*ssa.Function))
+	case *ssa.UnOp:
+		// a closure kept in a local variable (cell) or captured from the enclosing function
+		switch x := f.X.(type) {
+		case *ssa.FreeVar:
+			return x.Name()
+		case *ssa.Alloc:
+			return x.Comment
+		}
 	}
 	return ""
 }
@@ -916,18 +935,40 @@ func closureName(fn *ssa.Function) string {
 
 // siteOrdinal: position of the call among the calls to the same callee name, in block order.
 func (br *bodyRun) siteOrdinal(ci ssa.CallInstruction, name string) int {
-	k := 0
-	for _, b := range br.fn.Blocks {
-		for _, ins := range b.Instrs {
-			if c, ok := ins.(ssa.CallInstruction); ok && calleeName(c) == name {
-				k++
-				if c == ci {
-					return k
-				}
-			}
+	for k, c := range br.callSites(name) {
+		if c == ci {
+			return k + 1
 		}
 	}
 	return 0
+}
+
+// callSites: the calls to the named callee in SOURCE order (position), which is what "#k"
+// means in contracts; calls without a position come last, in block order.
+func (br *bodyRun) callSites(name string) []ssa.CallInstruction {
+	if br.sites == nil {
+		br.sites = map[string][]ssa.CallInstruction{}
+	}
+	if s, ok := br.sites[name]; ok {
+		return s
+	}
+	var out []ssa.CallInstruction
+	for _, b := range br.fn.Blocks {
+		for _, ins := range b.Instrs {
+			if c, ok := ins.(ssa.CallInstruction); ok && calleeName(c) == name {
+				out = append(out, c)
+			}
+		}
+	}
+	sort.SliceStable(out, func(i, j int) bool {
+		pi, pj := out[i].Pos(), out[j].Pos()
+		if pi.IsValid() != pj.IsValid() {
+			return pi.IsValid()
+		}
+		return pi.IsValid() && pi < pj
+	})
+	br.sites[name] = out
+	return out
 }
 
 var _ = token.NoPos
